@@ -1,6 +1,74 @@
-import BstreamVerif.Model.Forkable
-import BstreamVerif.Spec.Consumer
+import BstreamVerif.Lemmas.StepCheckSound
+/-!
+# C03 — the stream follows the chain head and the chain's declared finality
+
+`tip_rule`: after every incoming block the tip (the last block sent, which is the top of the consumer's chain by
+`Inv.topSome`) is that block exactly when it was not stored yet, links back to the LIB through stored blocks
+(a longest chain is found) and triggers (higher than the previous tip, or any height in all-blocks-trigger mode);
+otherwise nothing is delivered and the tip is unchanged. Same hypotheses as C01's step theorem.
+`lib_follows_declared`: the LIB moves to the ancestor of the tip at the tip's declared LIB number.
+The "consequently" clause (independence of retention / re-fed blocks) is checked by the twin-run monitors.
+-/
 namespace BstreamVerif.Props.C03
-open BstreamVerif BstreamVerif.Forkable BstreamVerif.Consumer
+open BstreamVerif BstreamVerif.Forkable BstreamVerif.ForkDB
+
+theorem tip_rule (cfg : Config) (hnew : cfg.matches .new = true) (hundo : cfg.matches .undo = true)
+    (hirr : cfg.matches .irreversible = true) (s : FState) (P : List Id) (b : Blk)
+    (hI : Inv s P) (hok : Props.C01.StepOK s b) :
+    ((processBlock cfg s b none).2.1 = [] ∧ (processBlock cfg s b none).1.lastSent = s.lastSent) ∨
+    (s.db.find b.id = none ∧ triggers cfg s b = true ∧
+      ∃ l, (processBlock cfg s b none).1.lastSent = some l ∧ l.ref = b.ref) :=
+  let ⟨_, _, _, h⟩ := processBlock_step cfg hnew hundo hirr s P b hI hok.1 hok.2.1 hok.2.2.1 hok.2.2.2
+  h
+
+/-- the tip is the top of the consumer's chain -/
+theorem tip_is_top (s : FState) (P : List Id) (hI : Inv s P) (l : Blk) (h : s.lastSent = some l) :
+    topOf s.db.libRef.id P = l.id := hI.topSome l h
+
+/-- the trigger rule -/
+theorem triggers_rule (cfg : Config) (s : FState) (b : Blk) :
+    triggers cfg s b = (cfg.allTrigger || match s.lastSent with | none => true | some l => decide (b.num > l.num)) := by
+  unfold triggers
+  cases cfg.allTrigger <;> cases s.lastSent <;> simp
+
+/-- a block below the LIB, a stored block and an invalid block never move the tip -/
+theorem no_move (cfg : Config) (s : FState) (b : Blk) (f : Option Nat)
+    (h : (b.num < s.db.libRef.num ∧ s.lastSent.isSome = true) ∨
+         ((b.id ≠ b.parent ∧ b.id ≠ "" ∧ s.db.link b.id ≠ "") ∧
+          (s.includeInit && s.lastSent.isNone && b.id == s.db.libRef.id) = false)) :
+    (processBlock cfg s b f).1 = s ∧ (processBlock cfg s b f).2.1 = [] := by
+  rcases h with ⟨h1, h2⟩ | ⟨h1, h2⟩
+  · exact Props.C01.below_lib_dropped cfg s b f h1 h2
+  · exact Props.C01.refeed_delivers_nothing cfg s b f h1 h2
+
+/-- the block the LIB moves to carries the number the tip declares -/
+theorem blockInChainAux_num (db : DB) (target fuel : Nat) (cur : Id) (curNum : Nat)
+    (h : (db.blockInChainAux target fuel cur curNum).id ≠ "") :
+    (db.blockInChainAux target fuel cur curNum).num = target := by
+  induction fuel generalizing cur curNum with
+  | zero => simp [DB.blockInChainAux, Ref.empty] at h
+  | succ n ih =>
+    unfold DB.blockInChainAux at h ⊢
+    simp only at h ⊢
+    cases hn : db.numOf? (db.link cur) with
+    | none => rw [hn] at h; simp [Ref.empty] at h
+    | some pn =>
+      rw [hn] at h
+      simp only at h ⊢
+      by_cases h1 : (pn == target) = true
+      · simp only [h1, if_true]; exact beq_iff_eq.mp h1
+      · simp only [h1, Bool.false_eq_true, if_false] at h ⊢
+        by_cases h2 : pn < target
+        · simp only [h2, if_true]
+        · simp only [h2, if_false] at h ⊢
+          exact ih _ _ h
+
+theorem lib_follows_declared (db : DB) (tip : Blk) (h : (db.blockInChain tip.ref tip.lib).id ≠ "") :
+    (db.blockInChain tip.ref tip.lib).num = tip.lib := by
+  unfold DB.blockInChain at h ⊢
+  by_cases hs : (tip.ref.num == tip.lib) = true
+  · simp only [hs, if_true]; exact beq_iff_eq.mp hs
+  · simp only [hs, Bool.false_eq_true, if_false] at h ⊢
+    exact blockInChainAux_num db _ _ _ _ h
 
 end BstreamVerif.Props.C03
